@@ -629,6 +629,8 @@ func c20generate(e *c20env, p c20params, rng *rand.Rand) {
 		switch x := rng.Intn(10); {
 		case x == 0 || len(e.stored) == 0: // never created
 			return fmt.Sprintf("id-%d", 800000+rng.Intn(50))
+		case x == 1 && nextID <= p.nIDs: // not created YET: probed now (a miss), created later, probed again
+			return fmt.Sprintf("id-%d", nextID+rng.Intn(2))
 		case x <= 3 && len(createdPlain) > 0: // an old one (evicted when there are many)
 			return createdPlain[rng.Intn(1+len(createdPlain)/4)]
 		case x == 4 && len(createdPlain) > 0: // a recent one
